@@ -546,7 +546,17 @@ def check(fx, rep, tier):
                         ok = False
                         if end_l is not None:
                             r_end = ta.root_of(name, end_l)
-                            for d in m.defs().get(r_end, []):
+                            cand = list(m.defs().get(r_end, []))
+                            # `start.checked_add(clean).unwrap_or(<clean>)`: look through the unwrapping call
+                            for d in list(cand):
+                                if d[0] == "call":
+                                    g = F.strip_generics(F.Mir.callee_generic(d[3]) or "").split("::")[-1]
+                                    a = d[3]["args"]
+                                    if g in ("unwrap_or", "unwrap_or_default") and a and not any(ta.op_tainted(name, x) for x in a[1:]):
+                                        il = F.op_base_local(a[0])
+                                        if il is not None:
+                                            cand += m.defs().get(ta.root_of(name, il), [])
+                            for d in cand:
                                 if d[0] == "call":
                                     g = F.strip_generics(F.Mir.callee_generic(d[3]) or "").split("::")[-1]
                                     a = d[3]["args"]
